@@ -9,6 +9,7 @@
 #define CJV_H
 
 #include <stddef.h>
+#include <errno.h>
 #include <stdint.h>
 #include <stdio.h>
 #include "cJSON.h"
@@ -63,8 +64,15 @@ extern long cjv_violations;         /* number of V lines written */
 void cjv_violation(const char *key, const char *fmt, ...) __attribute__((format(printf, 2, 3)));
 void cjv_fatal(const char *fmt, ...) __attribute__((format(printf, 1, 2), noreturn)); /* harness failure: exit 2 */
 
-#define LIB_BEGIN(name) do { cjv_cur_call = (name); cjv_in_lib = 1; } while (0)
+/* errno is whatever earlier, unrelated calls left in it: a case can ask for a given stale value
+ * to be in place at the start of every library call (results must not depend on it) */
+extern int cjv_errno_preset;
+#define LIB_BEGIN(name) do { cjv_cur_call = (name); cjv_in_lib = 1; if (cjv_errno_preset) errno = cjv_errno_preset; } while (0)
 #define LIB_END()       do { cjv_in_lib = 0; } while (0)
+/* cJSON_bool is an int: every non-zero value means "true".  Arguments that are true are passed
+ * as 1, 2, -1 or 256, chosen from the case id and op index (so a replay repeats the choice). */
+int cjv_truthy(void);
+#define TRU(x) ((x) ? cjv_truthy() : 0)
 
 /* real libc allocator (the library objects are linked with --wrap, see cjv_mon.c) */
 void *__real_malloc(size_t);
